@@ -5,7 +5,7 @@ from pathlib import Path
 
 VERIF = Path(__file__).resolve().parent.parent
 REPO = Path(os.environ.get("VERIF_REPO", "/repo"))
-BUILD = VERIF / "build"
+BUILD = Path(os.environ.get("VERIF_BUILD", str(VERIF / "build")))     # tools/mutate.py gives every mutation run its own
 SPEC = VERIF / "spec"
 HARNESS = VERIF / "harness"
 EVID = Path(os.environ.get("VERIF_EVID", str(VERIF / "evidence")))
